@@ -219,6 +219,13 @@ func (w *brWorld) history(nops int) {
 			if r.Chance(3) {
 				hashes = append(hashes, r.Bytes(31))
 			}
+			tipBefore := voted()
+			storedBefore := map[uint64][]byte{}
+			for hgt := start; hgt > 0 && hgt+3 > start; hgt-- {
+				if old, err := w.e.Bitcoin.BlockHashes.Get(w.e.Ctx, hgt); err == nil {
+					storedBefore[hgt] = old
+				}
+			}
 			data := append(make([]byte, 8), le64b(start)...)
 			for _, h := range hashes {
 				data = append(data, h...)
@@ -229,6 +236,16 @@ func (w *brWorld) history(nops int) {
 					fmt.Sprintf("BHashes %%s %%s %d %s", start, cList(mapS(hashes, cB)))
 			}, func(cls int) {
 				if cls == 0 {
+					w.st.Chk("C06-hashes-gap-free")
+					tipAfter := voted()
+					if start != tipBefore+1 || tipAfter != tipBefore+uint64(len(hashes)) {
+						w.violate("C06", "hashes", "hash-gap", fmt.Sprintf("block-hash batch starting at %d accepted on tip %d; tip is now %d", start, tipBefore, tipAfter))
+					}
+					for hgt, old := range storedBefore {
+						if cur, err := w.e.Bitcoin.BlockHashes.Get(w.e.Ctx, hgt); err != nil || string(cur) != string(old) {
+							w.violate("C06", "hashes", "hash-rewritten", fmt.Sprintf("voted hash of height %d was rewritten", hgt))
+						}
+					}
 					for i, h := range hashes {
 						w.enqHashes = append(w.enqHashes, fmt.Sprintf("%d:%x", start+uint64(i), h))
 					}
